@@ -9,7 +9,7 @@ mod metadata;
 pub mod type_props;
 pub mod variant_props;
 
-use proc_macro2::Span;
+use proc_macro2::{Delimiter, Group, Span, TokenStream, TokenTree};
 use quote::ToTokens;
 use syn::spanned::Spanned;
 
@@ -18,6 +18,43 @@ pub fn missing_parse_err_attr_error() -> syn::Error {
         Span::call_site(),
         "`parse_err_ty` and `parse_err_fn` attributes are both required.",
     )
+}
+
+/// Prints a discriminant expression copied from the input enum.
+///
+/// `macro_rules!` wraps a substituted `$e:expr` in an invisible (`None`-delimited) group so that
+/// `$e * 2` keeps its meaning. rustc ignores such a group once a proc macro has re-created it,
+/// which printing a parsed expression does, so `(1 + 2) * 2` would silently become `1 + 2 * 2`.
+/// An invisible group holding an operator expression is therefore printed with parentheses.
+pub fn discriminant_tokens(expr: &syn::Expr) -> TokenStream {
+    fn is_operator_expr(tokens: &TokenStream) -> bool {
+        matches!(
+            syn::parse2::<syn::Expr>(tokens.clone()),
+            Ok(syn::Expr::Binary(_) | syn::Expr::Unary(_) | syn::Expr::Cast(_))
+        )
+    }
+
+    fn explicit_groups(tokens: TokenStream) -> TokenStream {
+        tokens
+            .into_iter()
+            .map(|tree| match tree {
+                TokenTree::Group(group) => {
+                    let delimiter = match group.delimiter() {
+                        Delimiter::None if is_operator_expr(&group.stream()) => {
+                            Delimiter::Parenthesis
+                        }
+                        other => other,
+                    };
+                    let mut explicit = Group::new(delimiter, explicit_groups(group.stream()));
+                    explicit.set_span(group.span());
+                    TokenTree::Group(explicit)
+                }
+                other => other,
+            })
+            .collect()
+    }
+
+    explicit_groups(expr.to_token_stream())
 }
 
 pub fn non_enum_error() -> syn::Error {
